@@ -602,8 +602,12 @@ Proof.
     { destruct op; [exists l; split; [reflexivity|split; [exact Hl|intros z; reflexivity]]|apply model_dslash; exact Hl]. }
     destruct Hfrom as [from [-> [Gfrom Hfrom]]].
     destruct (model_step_loop s c Hns Hs from Gfrom) as [coll [-> [Gcoll Hcoll]]].
-    destruct (IH Ht coll Gcoll) as [r [Er [Gr Hr]]]. exists r. split; [exact Er|]. split; [exact Gr|].
-    intros x. rewrite Hr. cbn [reach]. apply reach_ext. intros y. rewrite Hcoll.
+    assert (Hdd : forall y, In y (step_dedup doc coll) <-> In y coll)
+      by (intros y; apply step_dedup_in; apply (good_key_inj doc Hinv); exact Gcoll).
+    assert (Gdd : Forall (good doc) (step_dedup doc coll)).
+    { apply Forall_forall. intros y Hy. rewrite Forall_forall in Gcoll. apply Gcoll. apply Hdd. exact Hy. }
+    destruct (IH Ht (step_dedup doc coll) Gdd) as [r [Er [Gr Hr]]]. exists r. split; [exact Er|]. split; [exact Gr|].
+    intros x. rewrite Hr. cbn [reach]. apply reach_ext. intros y. rewrite Hdd, Hcoll.
     split; intros [z [Hz Hy]]; exists z; (split; [apply Hfrom; exact Hz|exact Hy]).
 Qed.
 
